@@ -16,9 +16,28 @@ class C43R(c27.C27):
     drv = 'C43R'
     props_modules = ['CylcModel.Props.C43R']
     theorems = [
-        'CylcModel.C43R.rejected_reload_keeps_stop',
+        'CylcModel.C43R.reload_keeps_stop_point',
+        'CylcModel.C43R.reload_keeps_stop_task',
+        'CylcModel.C43R.main_loop_keeps_stop_point',
+        'CylcModel.C43R.stop_command_sets_stop_point',
+        'CylcModel.C43R.stop_state_coherent_run',
+        'CylcModel.C43R.reload_keeps_stop_point_run',
     ]
-    statement_note = 'in progress'
+    statement_note = (
+        'partial: proofs over the Sched3Reload model for all graphs, flags and states. PROVED: `cylc reload` (accepted '
+        'definition that keeps the final point and the flow.cylc stop point, or rejected definition) leaves the pool\'s '
+        'stop point unchanged in EVERY state whose stop-point state is coherent (StopOK: the pool\'s stop point is what '
+        'the configuration yields from the --stopcp option / flow.cylc / final point; without an option the DB holds '
+        'no stop point) and keeps it coherent (reload_keeps_stop_point); it leaves the stop task and its finished flag '
+        'unchanged in every state (reload_keeps_stop_task); a whole main-loop iteration, with or without a queued reload, '
+        'does not move the stop point (main_loop_keeps_stop_point); `cylc stop <point>` puts that point in force '
+        '(stop_command_sets_stop_point); StopOK holds in every state of every run (stop_state_coherent_run: generic '
+        'pass over all primitives of the model incl. restart and reload, lifted over all op lists), hence in every '
+        'state of every run a reload - direct or inside a main loop - keeps stop point and stop task '
+        '(reload_keeps_stop_point_run). NOT PROVED on this model (decided by the judge on every real trace and tied by '
+        'the correspondence; proved for the reload-free model under C43): no launch beyond the stop point, the '
+        'shutdown clauses (S2-S6). The hypotheses of the theorems (well-formed start graph, stop-point commands within '
+        'the final point, reloads keep final point and flow.cylc stop point) are checked by the driver on every case.')
     technique = ('the Sched3Reload model (scheduler core + holds / stop / pause / restart + `cylc reload`, a line-by-line port), '
                  'trace correspondence with the real Scheduler, the monitor judge of C43 on the observed traces with the '
                  'stop point in force tracked from the commands, an invariant over the stop-point state lifted over all '
